@@ -23,9 +23,9 @@ from aioesphomeapi.util import fix_float_single_double_conversion as FIX
 from google.protobuf.descriptor import FieldDescriptor as FD
 
 from vf import pbstub, track
-from vf.harness.common import concretize, same, shard_int
+from vf.harness.common import concretize, shard_int
 from vf.smt import c14_schema as S
-from vf.symtypes import IeeeFloat
+from vf.symtypes import IeeeFloat, same
 from vf.track import NoTracing
 
 PROPERTY = "C14"
@@ -373,6 +373,18 @@ def _supported(pb, md) -> bool:
     return _SUP_CACHE[key]
 
 
+_SPEC: dict = {}
+DEBUG_ID = shard_int("DEBUG_ID", 0)
+
+
+def _spec(pb, md) -> list:
+    """[(field name, classification)] in descriptor order -- computed once at import, not per path."""
+    key = (pb, md)
+    if key not in _SPEC:
+        _SPEC[key] = [(fd.name, _classify(pb, md, fd)) for fd in pb.DESCRIPTOR.fields]
+    return _SPEC[key]
+
+
 class _Alloc:
     """hands out the symbolic pool values in a fixed order; in counting mode only counts."""
 
@@ -400,15 +412,14 @@ class _Ctl:
     def __init__(self, mode=0, ewhich=0, evalue=0, fwhich=0, fvalue=0.0, lwhich=0, elist=(), rlen=1):
         self.mode, self.ewhich, self.evalue, self.fwhich, self.fvalue = mode, ewhich, evalue, fwhich, fvalue
         self.lwhich, self.elist, self.rlen = lwhich, elist, rlen
+        self.skip = False  # set when a list element lies beyond [min-2, max+2] of ITS enum
 
 
 def _build(pb, md, al: _Alloc, ctl: _Ctl, depth=0):
     """-> (double of pb carrying the values, {field: ('kind', given...)}) in descriptor order."""
     stub = pbstub.make_stub(pb)()
     given = {}
-    for fd in pb.DESCRIPTOR.fields:
-        k = _classify(pb, md, fd)
-        name = fd.name
+    for name, k in _spec(pb, md):
         kind = k[0]
         if kind in ("bool", "int", "str", "bytes", "float"):
             v = al.take(kind)
@@ -422,13 +433,19 @@ def _build(pb, md, al: _Alloc, ctl: _Ctl, depth=0):
         elif kind == "enum":
             sl = al.slot("enum")
             nums = k[2]
-            v = ctl.evalue if (ctl.mode == 0 and sl == ctl.ewhich) else nums[min(1, len(nums) - 1)]
+            v = ctl.evalue + (nums[0] - 2) if (ctl.mode == 0 and sl == ctl.ewhich) else nums[min(1, len(nums) - 1)]
+            if ctl.mode == 0 and sl == ctl.ewhich and v > nums[-1] + 2:
+                ctl.skip = True
             setattr(stub, name, v)
             given[name] = (kind, v, k[1], nums)
         elif kind == "enum_list":
             sl = al.slot("enum_list")
             nums = k[2]
-            v = list(ctl.elist) if (ctl.mode == 2 and sl == ctl.lwhich) else [nums[-1], nums[0]]
+            v = [x + (nums[0] - 2) for x in ctl.elist] if (ctl.mode == 2 and sl == ctl.lwhich) else [nums[-1], nums[0]]
+            if ctl.mode == 2 and sl == ctl.lwhich:
+                for x in v:
+                    if x > nums[-1] + 2:
+                        ctl.skip = True
             getattr(stub, name).extend(v)
             given[name] = (kind, v, k[1], nums)
         elif kind in ("str_list", "int_list"):
@@ -467,6 +484,9 @@ def _model_ok(m, md, given, what: str) -> bool:
         got = getattr(m, name)
         w = what + "." + name
         if kind in ("bool", "int", "str", "bytes", "float"):
+            if DEBUG_ID and got is not g[1]:
+                with NoTracing():
+                    print("NOT-IDENTICAL", name, kind, type(got), type(g[1]))
             if not same(got, g[1]):
                 return track.fail(w + ": value not preserved")
         elif kind == "cfloat":
@@ -534,7 +554,9 @@ N_ENUM, N_CFLOAT, N_ELIST = _cnt.slots["enum"], _cnt.slots["cfloat"], _cnt.slots
 
 
 def _tup(t, n):
-    return Tuple[tuple([t] * n)] if n else Tuple[()]
+    # (never a 1-tuple: CrossHair prints a counterexample's 1-tuple as "(x)", which does not replay)
+    # (never Tuple[()]: on Python >= 3.11 CrossHair reads it as Tuple[object, ...])
+    return Tuple[tuple([t] * max(n, 2))]
 
 
 INTS = _tup(int, _cnt.n["int"])
@@ -548,7 +570,10 @@ _all_nums = [n for fd in P_PB.DESCRIPTOR.fields if fd.enum_type is not None for 
 for _fd in P_PB.DESCRIPTOR.fields:
     if _fd.message_type is not None:
         _all_nums += [n for f2 in _fd.message_type.fields if f2.enum_type is not None for n in _wire_numbers(f2.enum_type)]
-V_LO, V_HI = (min(_all_nums) - 2, max(_all_nums) + 2) if _all_nums else (0, 0)
+# a varied enum number is  (min of ITS enum - 2) + offset,  offset in [0, V_HI]; offsets beyond max+2 are skipped
+V_LO, V_HI = 0, (max(_all_nums) - min(_all_nums) + 4) if _all_nums else 0
+MODE = shard_int("MODE", -1)
+WHICH = shard_int("WHICH", -1)
 HAS_ROUNDTRIP = shard_int("ROUNDTRIP", 1)
 
 
@@ -566,6 +591,7 @@ def h14_from_pb(mode: int, which: int, value: int, ln: int, e0: int, e1: int, e2
                 ints: INTS, bools: BOOLS, strs: STRS, byts: BYTS, flts: FLTS) -> bool:
     """
     pre: 0 <= mode <= 3 and 0 <= which and 0 <= ln
+    pre: (MODE < 0 or mode == MODE) and (WHICH < 0 or which == WHICH)
     pre: V_LO <= value <= V_HI and V_LO <= e0 <= V_HI and V_LO <= e1 <= V_HI and V_LO <= e2 <= V_HI
     pre: _short(strs, byts)
     post: _
@@ -604,6 +630,8 @@ def h14_from_pb(mode: int, which: int, value: int, ln: int, e0: int, e1: int, e2
 def _plain(ctl, ints, bools, strs, byts, flts) -> bool:
     al = _Alloc({"int": ints, "bool": bools, "str": strs, "bytes": byts, "float": flts})
     stub, given = _build(P_PB, P_MD, al, ctl)
+    if ctl.skip:
+        return True
     try:
         m = P_MD.from_pb(stub)
     except Exception:  # noqa: BLE001
